@@ -435,7 +435,10 @@ class AliasHistory(History):
                                       # input format: sequence or mapping label -> field
                                       "fmt": st.sampled_from(["list", "list", "dict", "dict", "proxy"]),
                                       "keys": st.permutations(COLLECT_KEYS).map(lambda x: list(x[:3])),
-                                      "labels_arg": st.sampled_from([False, False, True])})
+                                      "labels_arg": st.sampled_from([False, False, True]),
+                                      # explicit `dtype` argument (after missed seed C15-5: with copy_fields=True
+                                      # fields of another dtype were adopted instead of copied)
+                                      "dtype_arg": st.sampled_from([None, None, "complex", "result"])})
 
     def _has_coll(self):
         return self.has(lambda e: e.kind == "coll")
@@ -594,7 +597,7 @@ class AliasHistory(History):
         self.flags.add("copy:" + ("coll" if src.kind == "coll" else "field"))
         self.add(e)
 
-    def op_collect(self, hs, copy_fields, fmt="list", keys=None, labels_arg=False):
+    def op_collect(self, hs, copy_fields, fmt="list", keys=None, labels_arg=False, dtype_arg=None):
         """``FieldCollection(fields)`` with ``fields`` a list or a mapping label -> field.
 
         Documented: a mapping is equivalent to the sequence of its values with the keys as the
@@ -628,6 +631,14 @@ class AliasHistory(History):
         kw = {}
         if copy_fields:
             kw["copy_fields"] = True  # otherwise left at its default (False)
+        if dtype_arg is not None:
+            # documented: "dtype: the data type of the field. All the numpy dtypes are supported"
+            if dtype_arg == "complex":
+                dtype = np.result_type(dtype, np.complex128)
+                buf = buf.astype(dtype)
+                mixed = any(s.full.dtype.kind != "c" for s in srcs)
+            kw["dtype"] = dtype
+            self.flags.add(f"collect:dtype-arg:{dtype_arg}:" + ("copy" if copies else "link"))
         if mapping:
             arg = dict(zip(keys, [s.obj for s in srcs]))  # insertion order = order of the fields
             if len(arg) != n:
